@@ -107,7 +107,10 @@ def gen_cases(tier, seed):
                        dict(name='h', t='anti', nu=1, nl=1, rule='any', w=2)]
     for _ in range(200 * mult):
         spin = r.random() < 0.2
-        g = ExprGen(r, cat, spin=spin, general=0.2)
+        # powers of tensors: a sign from a bra-ket swap has to be raised to the
+        # exponent as well
+        g = ExprGen(r, cat, spin=spin, general=0.2,
+                    exponents=r.choice([0.0, 0.35, 0.7]))
         first = g.term(nobj=r.randint(1, 4))
         if first is None:
             continue
@@ -120,6 +123,21 @@ def gen_cases(tier, seed):
         names = ['d', 'g', 'h', 'V', 'f', 'v', 's']
         sym = r.sample(names, r.randint(0, 2))
         anti = [n for n in r.sample(names, r.randint(0, 2)) if n not in sym]
+        if not spin and r.random() < 0.25:
+            # a power of a tensor written with the virtual indices on top (the
+            # bra-ket swap gives the sign), declared (anti)symmetric
+            used = set(ir.term_indices(first))
+            nm = r.choice(['d', 'h'])
+            a_, i_ = g.fresh('virt', used, ''), None
+            used.add(a_)
+            i_ = g.fresh('occ', used, '')
+            first['objs'].append({'t': 'anti', 'name': nm, 'up': [a_],
+                                  'lo': [i_], 'bk': 0,
+                                  'exp': r.choice([2, 2, 3, 4])})
+            first['objs'].append({'t': 'non', 'name': 'x', 'up': [a_, i_]})
+            terms = [first]
+            if nm not in sym and nm not in anti:
+                (anti if r.random() < 0.7 else sym).append(nm)
         is_real = r.random() < 0.5
         if is_real:  # real orbitals: V and f are bra-ket symmetric
             anti = [n for n in anti if n not in ('V', 'f')]
